@@ -3617,9 +3617,10 @@ impl CanonicalizeContext {
 			if !is_int(&first_child) {
 				return Ok( false );
 			}
-			let slash_part = canonicalize.canonicalize_mrows(as_element(fraction_children[1]))?;
+			// only look at the siblings: canonicalizing them here moved the children of a following mrow into a new (discarded) mrow
+			let slash_part = as_element(fraction_children[1]);
 			if name(&slash_part) == "mo" && as_text(slash_part) == "/" {
-				let denom = canonicalize.canonicalize_mrows(as_element(fraction_children[2]))?;
+				let denom = as_element(fraction_children[2]);
 				return Ok( is_int(&denom) );
 			}
 			return Ok( false );
